@@ -34,6 +34,13 @@ def cases_for(pid):
         if m.get("property") == pid and m.get("selftest_expect"):
             out.append(("seeded/" + os.path.basename(os.path.dirname(meta)),
                         os.path.join(os.path.dirname(meta), "patch.diff"), m["selftest_expect"]))
+    # behaviour-preserving refactors made by independent sub-agents (benign/<name>/): must stay silent for the checks whose
+    # anchored code they touch
+    for meta in sorted(glob.glob(os.path.join(VERIF, "benign", "*", "meta.json"))):
+        m = json.load(open(meta))
+        if pid in m.get("checks", []):
+            out.append(("benign/" + os.path.basename(os.path.dirname(meta)),
+                        os.path.join(os.path.dirname(meta), "patch.diff"), "silent"))
     return out
 
 
